@@ -106,7 +106,7 @@ func (c16) Gen(r *rand.Rand, tier string, run int) *core.Case {
 			case x < 8:
 				op = core.Op{Kind: "terminate", X: int64(1 + r.IntN(objs+4*r.IntN(2)))}
 			default:
-				op = core.Op{Kind: []string{"add", "add-family", "readd", "add-early", "add-doomed"}[r.IntN(5)], X: int64(1 + r.IntN(objs))}
+				op = core.Op{Kind: []string{"add", "add-family", "readd", "add-early", "add-doomed", "add-direct"}[r.IntN(6)], X: int64(1 + r.IntN(objs))}
 			}
 			op.Actor = a
 			op.Y = int64(r.IntN(2))
@@ -120,6 +120,9 @@ func (c16) Gen(r *rand.Rand, tier string, run int) *core.Case {
 }
 
 type c16obj struct {
+	// direct: the in-process proxy the generated Create<Itf> helper returned
+	// to whoever created the object (nil for objects added with Service.Add)
+	direct probe.ProbeProxy
 	// an implementation value may live several lives (added again after
 	// its removal): each life is a record of its own
 	execSlot   int // what the implementation writes into the execution log
@@ -517,6 +520,36 @@ func (c16) Run(c *core.Case, env *core.Env) {
 				switch op.Kind {
 				case "add":
 					add(a, nil)
+				case "add-direct":
+					// created with the generated helper: the creator keeps an
+					// in-process proxy, used before and after the removal
+					h := env.Invoke(a, "add", "")
+					zzsim.SetNode("server")
+					st.mu.Lock()
+					o := &c16obj{slot: len(st.objs)}
+					impl := &ProbeImpl{Env: env, SlowMs: c.P("slow_ms", 0), Obj: o.slot}
+					o.impl, o.execSlot = impl, o.slot
+					st.objs = append(st.objs, o)
+					st.mu.Unlock()
+					dp, err := probe.CreateProbe(nil, w.Svc, impl)
+					zzsim.SetNode("harness")
+					if err != nil {
+						env.Return(h, "", err)
+						continue
+					}
+					env.Return(h, fmt.Sprintf("slot%d id=%d", o.slot, dp.Proxy().ObjectID()), nil)
+					st.mu.Lock()
+					o.id, o.addRet, o.direct = dp.Proxy().ObjectID(), h.Ret, dp
+					st.mu.Unlock()
+					for _, cl := range clients {
+						if p, err := ProbeProxy(cl, w.ServiceID, o.id); err == nil {
+							st.mu.Lock()
+							o.proxies = append(o.proxies, p)
+							st.mu.Unlock()
+						}
+					}
+					c16direct(env, a, i, o)
+					env.Probe("objects-created-with-the-generated-helper")
 				case "add-early":
 					addEarly(a, int(op.Y), false)
 					env.Probe("objects-called-while-being-activated")
@@ -619,7 +652,20 @@ func (c16) Run(c *core.Case, env *core.Env) {
 	st.mu.Unlock()
 	for _, o := range all {
 		c16call(env, 95, o.slot, o, 0)
+		if o.direct != nil {
+			c16direct(env, 95, 500+o.slot, o)
+		}
 	}
+}
+
+// c16direct calls the object through the in-process proxy of its creator.
+func c16direct(env *core.Env, a, i int, o *c16obj) {
+	tok := probe.Token{Client: int32(a), Seq: int32(i), Nonce: int64(o.slot), Text: "t"}
+	h := env.Invoke(a, "direct-call", fmt.Sprintf("%s@slot%d", tokOf(tok).Key(), o.slot))
+	zzsim.SetNode("server")
+	ret, err := o.direct.Echo(tok)
+	zzsim.SetNode("harness")
+	env.Return(h, tokOf(ret).String(), err)
 }
 
 func c16call(env *core.Env, a, i int, o *c16obj, which int) {
@@ -770,6 +816,26 @@ func (c16) Check(c *core.Case, env *core.Env, res zzsim.Result, v *core.Verdict)
 			}
 			if h.OK && !strings.HasPrefix(h.Out, key+":") {
 				bad("wrong-reply", "%s: %s returned %q", name, h, h.Out)
+			}
+		}
+		// calls through the creator's in-process proxy: same rules
+		for _, h := range hs {
+			if h.Kind != "direct-call" || !strings.HasSuffix(h.Arg, fmt.Sprintf("@slot%d", o.slot)) || h.Ret == 0 {
+				continue
+			}
+			key, _, _ := strings.Cut(h.Arg, "@")
+			ran := 0
+			for _, e := range execs {
+				if e.Key == key {
+					ran++
+				}
+			}
+			if h.Call > firstRemoved {
+				if h.OK || ran > 0 {
+					bad("direct-proxy/call-after-removal-reached-the-object", "%s was removed (removal returned at %d) but a later call through the in-process proxy of its creator reached it: %s (ran %d times)", name, firstRemoved, h, ran)
+				}
+			} else if (o.removeCall == 0 || h.Ret < o.removeCall) && (!h.OK || ran != 1) {
+				bad("direct-proxy/live-object-refused", "%s is live but a call through the in-process proxy of its creator failed or ran %d times: %s", name, ran, h)
 			}
 		}
 		// the call made while the object was being activated: one outcome (the
